@@ -1766,9 +1766,9 @@ fn run_part_c(ctx: &Ctx, cases: u32) -> Report {
 }
 
 pub fn run(ctx: &Ctx) -> Report {
-    let mut rep = run_part_a(ctx, ctx.tier.pick(1300, 20_000));
-    let b = run_part_b(ctx, ctx.tier.pick(550, 9_000));
-    let c = run_part_c(ctx, ctx.tier.pick(1300, 20_000));
+    let mut rep = run_part_a(ctx, ctx.tier.pick(2600, 20_000));
+    let b = run_part_b(ctx, ctx.tier.pick(1100, 9_000));
+    let c = run_part_c(ctx, ctx.tier.pick(2600, 20_000));
     // per-part floors (a part that produced no evidence makes the run inconclusive)
     let count = |r: &Report, l: &str| r.labels.get(l).copied().unwrap_or(0);
     let mut problems = vec![];
